@@ -231,8 +231,12 @@ func (c *Ctx) writeSetOf(fn *ssa.Function) *WriteSet {
 				ws.all = true
 				continue
 			}
-			name, srt := d.resolveModifies(m)
-			ws.comps[name] = srt
+			for name, srt := range d.resolveModifiesAll(m) {
+				ws.comps[name] = srt
+				if t, ok := d.compT[name]; ok {
+					ws.types[name] = t
+				}
+			}
 		}
 		c.writeSets[fn] = ws
 		return ws
@@ -254,11 +258,94 @@ func (c *Ctx) writeSetOf(fn *ssa.Function) *WriteSet {
 	return ws
 }
 
-// resolveModifies maps "Type.field" (ghost model) or a raw component name to (component, sort).
+// resolveModifies maps a modifies item to components:
+//   Type.field (ghost model) | field(Struct.f) | elems(T) | maps(K,V) | cells(T) | alloc | ghost(name) | raw::sort
+func (fe *FnEnc) resolveModifiesAll(m string) map[string]string {
+	m = strings.TrimSpace(m)
+	out := map[string]string{}
+	env := fe.baseEnv(fe.entrySnap())
+	arg := func(prefix string) (string, bool) {
+		if strings.HasPrefix(m, prefix+"(") && strings.HasSuffix(m, ")") {
+			return m[len(prefix)+1 : len(m)-1], true
+		}
+		return "", false
+	}
+	if a, ok := arg("elems"); ok {
+		t := fe.safeResolve(env, a)
+		if t != nil {
+			es := fe.sorts.sortOf(t)
+			fe.compT[compElems(es)] = t
+			out[compElems(es)] = arrSort(sInt, arrSort(sInt, es))
+		}
+		return out
+	}
+	if a, ok := arg("cells"); ok {
+		t := fe.safeResolve(env, a)
+		if t != nil {
+			es := fe.sorts.sortOf(t)
+			fe.compT[compCell(es)] = t
+			out[compCell(es)] = arrSort(sInt, es)
+		}
+		return out
+	}
+	if a, ok := arg("maps"); ok {
+		ks, vs, _ := strings.Cut(a, ",")
+		kt, vt := fe.safeResolve(env, strings.TrimSpace(ks)), fe.safeResolve(env, strings.TrimSpace(vs))
+		if kt != nil && vt != nil {
+			k, v := fe.sorts.sortOf(kt), fe.sorts.sortOf(vt)
+			fe.compT[compMapVal(k, v)] = vt
+			out[compMapDom(k, v)] = arrSort(sInt, arrSort(k, sBool))
+			out[compMapVal(k, v)] = arrSort(sInt, arrSort(k, v))
+			out[compMapCard(k, v)] = arrSort(sInt, sInt)
+		}
+		return out
+	}
+	if a, ok := arg("field"); ok {
+		tn, f, _ := strings.Cut(a, ".")
+		t := fe.safeResolve(env, tn)
+		if t != nil && structOf(t) != nil {
+			st := structOf(t)
+			for i := 0; i < st.NumFields(); i++ {
+				if st.Field(i).Name() == f && structOf(st.Field(i).Type()) == nil {
+					cn, cs, _ := fe.fieldLoc(t, i, tInt(0))
+					out[cn] = cs
+				}
+			}
+		}
+		if len(out) == 0 {
+			fe.unsupported("cannot resolve modifies %q", m)
+		}
+		return out
+	}
+	if a, ok := arg("ghost"); ok {
+		out[a] = fe.compSort[a]
+		if out[a] == "" {
+			out[a] = ghostCompSorts[a]
+		}
+		return out
+	}
+	n, s := fe.resolveModifies(m)
+	out[n] = s
+	return out
+}
+
+var ghostCompSorts = map[string]string{"held": arrSort(sInt, sBool), "clock": sInt}
+
+func (fe *FnEnc) safeResolve(env *Env, name string) (t types.Type) {
+	defer func() {
+		if r := recover(); r != nil {
+			fe.unsupported("cannot resolve type %q in modifies", name)
+			t = nil
+		}
+	}()
+	return env.resolveType(name)
+}
+
 func (fe *FnEnc) resolveModifies(m string) (string, string) {
 	m = strings.TrimSpace(m)
 	if tn, f, ok := strings.Cut(m, "."); ok && !strings.Contains(f, ".") {
-		for _, cf := range fe.c.contracts {
+		for _, k := range sortedKeys(fe.c.contracts) {
+			cf := fe.c.contracts[k]
 			for _, mf := range cf.Models[tn] {
 				if mf.Name == f {
 					env := fe.baseEnv(fe.entrySnap())
@@ -277,7 +364,7 @@ func (fe *FnEnc) resolveModifies(m string) (string, string) {
 	if m == "alloc" {
 		return m, sInt
 	}
-	// raw component with explicit sort: name:sort
+	// raw component with explicit sort: name::sort
 	if n, s, ok := strings.Cut(m, "::"); ok {
 		return n, s
 	}
@@ -370,8 +457,7 @@ func (fe *FnEnc) applyContract(st *State, instr ssa.Instruction, fc *FuncContrac
 			props = fc.Props
 		}
 		props = unionProps(props, fe.propsFor(nil))
-		o := fe.addOblExpr(st, "pre", fmt.Sprintf("%s:%s@%d", fc.Key, cl.Label, fe.callOrd[fc.Key]), props, cl.E, envPre, pos)
-		fe.assume(st, o.Goal)
+		fe.addOblExpr(st, "pre", fmt.Sprintf("%s:%s@%d", fc.Key, cl.Label, fe.callOrd[fc.Key]), props, cl.E, envPre, pos)
 	}
 	ws := fe.c.writeSetOf(callee)
 	fe.applyWriteSet(st, ws, fc.Key)
@@ -379,12 +465,40 @@ func (fe *FnEnc) applyContract(st *State, instr ssa.Instruction, fc *FuncContrac
 	env := fe.callEnv(pre, st, fc, callee, args, bindings, rets)
 	for i := range fc.Ensures {
 		cl := &fc.Ensures[i]
-		fe.assumeFlagged(st, fmt.Sprintf("call.%s@%d.%s", fc.Key, fe.callOrd[fc.Key], cl.Label), fe.trBool(cl.E, env))
+		fe.assumeClause(st, fmt.Sprintf("call.%s@%d.%s", fc.Key, fe.callOrd[fc.Key], cl.Label), cl.E, env)
 	}
 	if fc.Trusted {
 		fe.assumed["trusted contract: "+fc.Key] = true
 	}
 	fe.setResult(st, res, sig, rets)
+	fe.cutPoints(st, fc.Key, fe.callOrd[fc.Key], pos)
+}
+
+// cutPoints: `assert [label] after call Key#k: e` clauses of the function under verification: proved here, usable afterwards
+func (fe *FnEnc) cutPoints(st *State, key string, ord int, pos token.Pos) {
+	if fe.contract == nil || fe.dry {
+		return
+	}
+	for i := range fe.contract.Asserts {
+		as := &fe.contract.Asserts[i]
+		if !as.After || as.Callee != key || as.K != ord {
+			continue
+		}
+		var l *Loop
+		for _, cand := range fe.loops {
+			if fe.curBlock != nil && cand.blocks[fe.curBlock] {
+				l = cand // innermost last (loops are sorted outer first by position)
+			}
+		}
+		env := fe.loopEnv(st, l)
+		o := fe.addOblExpr(st, "assert", as.Label, fe.propsFor(&as.Clause), as.E, env, pos)
+		ord0 := 0
+		if l != nil {
+			ord0 = l.ord
+		}
+		o.Uses = resolveUses(as.Uses, ord0, "")
+		fe.assumeClause(st, "assert."+as.Label, as.E, env)
+	}
 }
 
 func unionProps(a, b []string) []string {
@@ -473,8 +587,9 @@ func (fe *FnEnc) applyIfaceContract(st *State, instr ssa.Instruction, cf *Contra
 			ws.all = true
 			continue
 		}
-		n, s := fe.resolveModifies(m)
-		ws.comps[n] = s
+		for n, s := range fe.resolveModifiesAll(m) {
+			ws.comps[n] = s
+		}
 	}
 	if fe.dry {
 		fe.applyWriteSet(st, ws, fc.Key)
@@ -491,8 +606,7 @@ func (fe *FnEnc) applyIfaceContract(st *State, instr ssa.Instruction, cf *Contra
 			props = fc.Props
 		}
 		props = unionProps(props, fe.propsFor(nil))
-		o := fe.addOblExpr(st, "pre", fmt.Sprintf("%s:%s@%d", fc.Key, cl.Label, fe.callOrd[fc.Key]), props, cl.E, envPre, pos)
-		fe.assume(st, o.Goal)
+		fe.addOblExpr(st, "pre", fmt.Sprintf("%s:%s@%d", fc.Key, cl.Label, fe.callOrd[fc.Key]), props, cl.E, envPre, pos)
 	}
 	fe.applyWriteSet(st, ws, fc.Key)
 	rets := fe.freshResults(st, sig, fc.Key)
@@ -545,8 +659,9 @@ func (fe *FnEnc) callCallback(st *State, instr ssa.Instruction, common *ssa.Call
 				ws.all = true
 				continue
 			}
-			n, s := fe.resolveModifies(m)
-			ws.comps[n] = s
+			for n, s := range fe.resolveModifiesAll(m) {
+				ws.comps[n] = s
+			}
 		}
 		if fe.dry {
 			fe.applyWriteSet(st, ws, fc.Key)
@@ -582,8 +697,7 @@ func (fe *FnEnc) callCallback(st *State, instr ssa.Instruction, common *ssa.Call
 		fe.callOrd[fc.Key]++
 		for i := range fc.Requires {
 			cl := &fc.Requires[i]
-			o := fe.addOblExpr(st, "pre", fmt.Sprintf("%s:%s@%d", fc.Key, cl.Label, fe.callOrd[fc.Key]), unionProps(fc.Props, fe.propsFor(nil)), cl.E, envPre, instr.Pos())
-			fe.assume(st, o.Goal)
+			fe.addOblExpr(st, "pre", fmt.Sprintf("%s:%s@%d", fc.Key, cl.Label, fe.callOrd[fc.Key]), unionProps(fc.Props, fe.propsFor(nil)), cl.E, envPre, instr.Pos())
 		}
 		fe.applyWriteSet(st, ws, fc.Key)
 		rets := fe.freshResults(st, sig, fname)
@@ -663,6 +777,15 @@ func (fe *FnEnc) callBuiltin(st *State, b *ssa.Builtin, common *ssa.CallCommon, 
 			fe.setReg(res, RV{T: fe.fresh("builtin", fe.sorts.sortOf(res.Type()))})
 		}
 	}
+}
+
+// rowFrame: replacing one row of an element heap leaves the other rows alone (stated with triggers in both directions).
+func (fe *FnEnc) rowFrame(hOld, hNew, row Term) {
+	if fe.dry || hOld.S == hNew.S {
+		return
+	}
+	fe.emit(fmt.Sprintf("(assert (forall ((r Int)) (! (=> (not (= r %s)) (= (select %s r) (select %s r))) :pattern ((select %s r)) :pattern ((select %s r)))))",
+		row.S, hNew.S, hOld.S, hNew.S, hOld.S))
 }
 
 // constLen recognises slices made from a fresh fixed-size array (variadic argument packs).
@@ -751,6 +874,7 @@ func (fe *FnEnc) builtinAppend(st *State, common *ssa.CallCommon, args []RV, res
 	}
 	fe.setComp(st, cn, cs, tStore(h, ra, newRow))
 	fe.emit("(assert (= (select " + fe.getComp(st, cn, cs).S + " " + ra.S + ") " + newRow.S + "))")
+	fe.rowFrame(h, fe.getComp(st, cn, cs), ra)
 	ncap := fe.fresh("app.cap", sInt)
 	fe.emit(fmt.Sprintf("(assert (and (>= %s (+ %s %s)) (=> %s (= %s %s))))", ncap.S, ln.S, nn.S, fits.S, ncap.S, slCap(s).S))
 	// appending nothing to a nil slice yields nil
@@ -796,6 +920,7 @@ func (fe *FnEnc) builtinCopy(st *State, common *ssa.CallCommon, args []RV, res s
 	fe.emit(fmt.Sprintf("(assert (forall ((p Int)) (! (=> (or (< p %s) (>= p (+ %s %s))) (= (select %s p) (select %s p))) :pattern ((select %s p)))))",
 		slOff(d).S, slOff(d).S, cnt.S, fr.S, oldRow.S, fr.S))
 	fe.setComp(st, cn, cs, tIte(tEq(slArr(d), tInt(0)), h, tStore(h, slArr(d), fr)))
+	fe.rowFrame(h, fe.getComp(st, cn, cs), slArr(d))
 	if res != nil {
 		fe.setReg(res, RV{T: cnt})
 	}
